@@ -40,6 +40,43 @@ type c06Req struct {
 	Body    string            `json:"body,omitempty"`
 	Backend string            `json:"backend"` // mem, rec-ok, rec-<CODE>, rec-plain
 	Opts    string            `json:"server_options,omitempty"`
+	// Prior: a request served by the same server (and backend) first; its response is not judged.
+	// Whatever the server remembers from it must not leak into the response to the request itself.
+	Prior *c06Req `json:"served_before,omitempty"`
+}
+
+func c06HTTPRequest(q c06Req) *http.Request {
+	u := &url.URL{Path: q.Path, RawQuery: q.Query}
+	req := &http.Request{Method: q.Method, URL: u, Header: http.Header{}, Proto: "HTTP/1.1", ProtoMajor: 1, ProtoMinor: 1, Host: "h", RequestURI: u.RequestURI()}
+	req = req.WithContext(context.Background())
+	req.Body = io.NopCloser(strings.NewReader(q.Body))
+	req.ContentLength = int64(len(q.Body))
+	for k, v := range q.Headers {
+		if k == "Content-Length" {
+			n, err := strconv.ParseInt(v, 10, 64)
+			if err != nil {
+				n = -1 // unknown length (chunked)
+			}
+			req.ContentLength = n
+			continue
+		}
+		req.Header.Set(k, v)
+	}
+	return req
+}
+
+// c06RepoOfPath: the repository a request path addresses ("" when the path is not of a known shape).
+func c06RepoOfPath(path string) string {
+	p := strings.TrimPrefix(path, "/v2/")
+	if p == path {
+		return ""
+	}
+	for _, word := range []string{"/blobs/", "/manifests/"} {
+		if i := strings.Index(p, word); i > 0 {
+			return p[:i]
+		}
+	}
+	return ""
 }
 
 // c06Guard wraps a backend: validates every argument independently and tracks every reader and writer.
@@ -277,6 +314,8 @@ func c06Backend(name string) ociregistry.Interface {
 		b.UploadID = strings.Repeat("u", 5000)
 	case name == "rec-ok-idodd":
 		b.UploadID = "https://up.example/a b/é?x=%2F&y=+#frag"
+	case name == "rec-ok-lenient":
+		b.LenientRange = true
 	case name == "rec-ok-closeerr":
 		// everything succeeds except that closing an upload writer fails (a fault at the very end)
 		b.CloseErr = fmt.Errorf("backend failed to close the upload writer")
@@ -316,24 +355,15 @@ func c06UploadSize(b ociregistry.Interface, path string) (int64, bool) {
 func c06Run(r *vcore.Run, q c06Req) {
 	g := &c06Guard{Interface: c06Backend(q.Backend), closed: map[int]int{}}
 	h := ociserver.New(g, c03ServerOpts(q.Opts))
-	u := &url.URL{Path: q.Path, RawQuery: q.Query}
-	req := &http.Request{Method: q.Method, URL: u, Header: http.Header{}, Proto: "HTTP/1.1", ProtoMajor: 1, ProtoMinor: 1, Host: "h", RequestURI: u.RequestURI()}
-	req = req.WithContext(context.Background())
-	req.Body = io.NopCloser(strings.NewReader(q.Body))
-	req.ContentLength = int64(len(q.Body))
-	for k, v := range q.Headers {
-		if k == "Content-Length" {
-			n, err := strconv.ParseInt(v, 10, 64)
-			if err != nil {
-				n = -1 // unknown length (chunked)
-			}
-			req.ContentLength = n
-			continue
-		}
-		req.Header.Set(k, v)
-	}
+	req := c06HTTPRequest(q)
 	kind := c06Kind(q)
 	fp := "C06/" + q.Method + "/" + kind
+	if q.Prior != nil {
+		fp += "/after-" + q.Prior.Method + "-" + c06Kind(*q.Prior)
+		if r.Guard("req", fp+"/prior/"+q.Backend, q, func() { h.ServeHTTP(httptest.NewRecorder(), c06HTTPRequest(*q.Prior)) }) {
+			return
+		}
+	}
 	rec := httptest.NewRecorder()
 	if r.Guard("req", fp+"/"+q.Backend, q, func() { h.ServeHTTP(rec, req) }) {
 		return
@@ -359,6 +389,12 @@ func c06Run(r *vcore.Run, q c06Req) {
 	case st >= 400:
 		if ct := res.Header.Get("Content-Type"); ct != "application/json" {
 			viol("error-not-json", "Content-Type: application/json", ct)
+		}
+		// headers prepared for a success that did not happen must not go out with the error
+		if cl := res.Header.Get("Content-Length"); cl != "" && q.Method != "HEAD" {
+			if n, err := strconv.Atoi(cl); err != nil || n != len(body) {
+				viol("error-Content-Length-differs-from-body", fmt.Sprint(len(body)), cl)
+			}
 		}
 		var we struct {
 			Errors []struct {
@@ -392,8 +428,14 @@ func c06Run(r *vcore.Run, q c06Req) {
 		}
 		needLocation := func() {
 			loc := hd.Get("Location")
-			if _, err := url.Parse(loc); loc == "" || err != nil {
+			lu, err := url.Parse(loc)
+			if loc == "" || err != nil {
 				viol("missing-or-malformed-Location", "a Location URL", loc)
+				return
+			}
+			// the Location designates something in the repository the request addressed
+			if repo := c06RepoOfPath(q.Path); repo != "" && q.Backend != "rec-ok-id1k" && q.Backend != "rec-ok-idodd" && !strings.HasPrefix(lu.Path, "/v2/"+repo+"/") {
+				viol("Location-outside-the-repository-addressed", "a Location under /v2/"+repo+"/", loc)
 			}
 		}
 		needRange := func() {
@@ -588,12 +630,15 @@ func c06Requests(thorough bool) []c06Req {
 			// backends whose own upload IDs are long or URL-like (the server turns them into Location headers)
 			bks = append(append([]string(nil), recBackends...), "rec-ok-id1k", "rec-ok-id5k", "rec-ok-idodd", "rec-ok-closeerr")
 		}
+		if c06Kind(c06Req{Path: sh.path}) == "blob" && sh.method == "GET" {
+			bks = append(append([]string(nil), recBackends...), "rec-ok-lenient")
+		}
 		for _, b := range bks {
 			for _, opts := range optsMenu {
 				if opts != "" && b != "mem" && b != "rec-ok" {
 					continue
 				}
-				if (strings.HasPrefix(b, "rec-ok-id") || b == "rec-ok-closeerr") && opts != "" {
+				if (strings.HasPrefix(b, "rec-ok-id") || b == "rec-ok-closeerr" || b == "rec-ok-lenient") && opts != "" {
 					continue
 				}
 				for _, qs := range queries {
@@ -634,8 +679,39 @@ func c06Requests(thorough bool) []c06Req {
 	return out
 }
 
+// c06Pairs: upload requests in one repository served after an upload request in another one, the two
+// sessions bearing the same ID (upload IDs are scoped to a repository: a backend that numbers sessions per
+// repository, or a client that names its own).
+func c06Pairs() []c06Req {
+	var out []c06Req
+	put := "digest=" + c06HelloDigest
+	mk := func(repo string) []c06Req {
+		return []c06Req{
+			{Method: "POST", Path: "/v2/" + repo + "/blobs/uploads/"},
+			{Method: "PATCH", Path: "/v2/" + repo + "/blobs/uploads/dTE", Body: "hello", Headers: map[string]string{"Content-Range": "0-4"}},
+			{Method: "PATCH", Path: "/v2/" + repo + "/blobs/uploads/dTE", Body: "hello"},
+			{Method: "GET", Path: "/v2/" + repo + "/blobs/uploads/dTE"},
+			{Method: "PUT", Path: "/v2/" + repo + "/blobs/uploads/dTE", Query: put, Body: "hello"},
+		}
+	}
+	for _, bk := range []string{"mem", "rec-ok"} {
+		for _, prior := range mk("a") {
+			for _, repo := range []string{"b", "a", "a/b"} {
+				for _, main := range mk(repo) {
+					p := prior
+					p.Backend = bk
+					main.Backend = bk
+					main.Prior = &p
+					out = append(out, main)
+				}
+			}
+		}
+	}
+	return out
+}
+
 func c06Check(r *vcore.Run) vcore.Coverage {
-	reqs := c06Requests(r.Thorough())
+	reqs := append(c06Requests(r.Thorough()), c06Pairs()...)
 	var handled int64
 	vcore.ParallelN(len(reqs), func(i int) {
 		c06Run(r, reqs[i])
@@ -651,7 +727,7 @@ func c06Check(r *vcore.Run) vcore.Coverage {
 		"a writer counts as closed after Close, Cancel or a successful Commit",
 	}
 	return vcore.Coverage{Evaluations: int64(len(reqs)), Nontrivial: handled, Exhaustive: true,
-		Rule: fmt.Sprintf("request lines: 7 methods x every path of <= %d segments over an 18-entry menu (empty, valid/upper-case/dot-dot names, the routing words, valid and malformed digests, a live upload id, 129-char tag, 256-char name) against a seeded ocimem and a recording backend; directed shapes of all 20 request kinds x 24 query strings x 7 bodies x headers Range/Content-Range/Content-Length/Content-Type from boundary menus (<= 2 non-default headers) x backends {ocimem, recording ok, plain error, each of the 15 standard errors; for upload requests also backends issuing 1 KiB URL-like, 5 KiB and oddly-charactered upload IDs} x server option sets; non-trivial = requests that reach a handler family", map[bool]int{false: 3, true: 4}[r.Thorough()])}
+		Rule: fmt.Sprintf("request lines: 7 methods x every path of <= %d segments over an 18-entry menu (empty, valid/upper-case/dot-dot names, the routing words, valid and malformed digests, a live upload id, 129-char tag, 256-char name) against a seeded ocimem and a recording backend; directed shapes of all 20 request kinds x 24 query strings x 7 bodies x headers Range/Content-Range/Content-Length/Content-Type from boundary menus (<= 2 non-default headers) x backends {ocimem, recording ok, plain error, each of the 15 standard errors; for upload requests also backends issuing 1 KiB URL-like, 5 KiB and oddly-charactered upload IDs} x server option sets; plus every pair of upload requests (start, chunk with and without Content-Range, status, completion) where the first addresses repository a and the second the same session ID in repository b, a or a/b, on one server; non-trivial = requests that reach a handler family", map[bool]int{false: 3, true: 4}[r.Thorough()])}
 }
 
 func c06Replay(r *vcore.Run, sub string, raw json.RawMessage) {
